@@ -87,6 +87,9 @@ impl EntityReactionAccessTracker
         self.reaction_type = reaction;
     }
 
+    #[cfg(feature = "verif_hooks")]
+    pub(crate) fn verif_state(&self) -> (bool, usize) { (self.currently_reacting, self.prepared.len()) }
+
     /// Unsets the 'is reacting' flag.
     pub(crate) fn end(&mut self)
     {
